@@ -75,8 +75,20 @@ def _keep_after(E):
         E.assume(z3.Select(E.harr(key, [z3.IntSort()], srt), fr.t) == val)
 
 
+def _run_after(E):
+    """after aux.enterAll() / aux.recur(): the framer's fields are kept (above) AND the auxiliary may have completed.
+    The callee contracts say `not aux.done` after enterAll and keep aux.done across recur (acts are modelled as not
+    writing fields of the framer that runs them); a `done` act of the auxiliary (CompleteDone: framer.done = True, as
+    an enter or recur action) does exactly that, and it is how a conditional auxiliary completes.  Those two facts are
+    therefore NOT relied on here: aux.done is an arbitrary truth value after either call (a weakening of what is
+    assumed about the callees: both branches of `if aux.done:` are explored)."""
+    _keep_after(E)
+    E.wr_field(E.frame.env["aux"], "done", E.fresh_val("aux_done_after_run", BOOL))
+
+
 AUX_OPS = ("aux.enterAll()", "aux.recur()", "aux.segue()", "self.deactivate(aux)")
-KEEP_HOOKS = {"before": {t: _keep_before for t in AUX_OPS}, "after": {t: _keep_after for t in AUX_OPS}}
+KEEP_HOOKS = {"before": {t: _keep_before for t in AUX_OPS},
+              "after": {t: (_run_after if t in ("aux.enterAll()", "aux.recur()") else _keep_after) for t in AUX_OPS}}
 
 UNCH_FR = ("{f}.actives is old({f}.actives) and seq_eq({f}.actives, oldlist({f}.actives)) and "
            "{f}.active is old({f}.active) and {f}.human == old({f}.human) and {f}.done == old({f}.done) and "
@@ -322,6 +334,8 @@ class _Aux(_D):
         self.done = False
         self.active = self.first
         self.actives = self.first.outline
+        if self.completes_after <= 0:
+            self.done = True              # a `done` enter action of the auxiliary's first frame
 
     def segue(self):
         self._ev("Framer.segue")
@@ -440,7 +454,7 @@ def _mk_aux(rng, trace, main, running, other):
     auxframe = _D(name="a1", outline=None)
     auxframe.outline = _L([auxframe])
     aux = _Aux(name="helper", trace=trace, first=auxframe, original=rng.random() < 0.8, runs=0,
-               start_ok=rng.random() < 0.75, completes_after=rng.choice([1, 1, 2, 3]))
+               start_ok=rng.random() < 0.75, completes_after=rng.choice([0, 1, 1, 2, 3]))
     if running:
         aux.done, aux.main, aux.active, aux.actives = False, main, auxframe, auxframe.outline
         aux.completes_after = rng.choice([1, 1, 2])
